@@ -127,9 +127,53 @@ def be_int(seq_term, start, size):
     return acc
 
 
+_mask_memo = {}
+
+
+def maybe_mask(t):
+    """Known-bits abstraction: an int m such that the value of t is non-negative and (t & ~m) == 0 whatever the
+    valuation, or None when not derivable.  Sound cases only: literals, ite over masked terms, sums of terms with pairwise
+    disjoint masks (no carries), products of a masked term with a power of two."""
+    key = t.get_id()
+    if key in _mask_memo:
+        return _mask_memo[key][0]
+    m = None
+    if z3.is_int_value(t):
+        v = t.as_long()
+        m = v if v >= 0 else None
+    elif z3.is_app(t):
+        k = t.decl().kind()
+        if k == z3.Z3_OP_ITE:
+            a, b = maybe_mask(t.arg(1)), maybe_mask(t.arg(2))
+            if a is not None and b is not None:
+                m = a | b
+        elif k == z3.Z3_OP_ADD:
+            acc = 0
+            for i in range(t.num_args()):
+                a = maybe_mask(t.arg(i))
+                if a is None or (acc & a):
+                    acc = None
+                    break
+                acc |= a
+            m = acc
+        elif k == z3.Z3_OP_MUL and t.num_args() == 2:
+            for i in (0, 1):
+                c, x = t.arg(i), t.arg(1 - i)
+                if z3.is_int_value(c) and c.as_long() > 0 and (c.as_long() & (c.as_long() - 1)) == 0:
+                    a = maybe_mask(x)
+                    if a is not None:
+                        m = a * c.as_long()
+                    break
+    _mask_memo[key] = (m, t)
+    return m
+
+
 def bit_and_const(x, c: int):
     """x & c for a z3 Int x and a concrete non-negative mask c (two's complement semantics, any sign of x)."""
     if c == 0:
+        return z3.IntVal(0)
+    mx = maybe_mask(x)
+    if mx is not None and (mx & c) == 0:
         return z3.IntVal(0)
     if c > 0 and (c & (c + 1)) == 0:
         return x % z3.IntVal(c + 1)
@@ -357,16 +401,29 @@ _abs_counter = [0]
 def arith_abstract(t):
     """Replace every maximal non-arithmetic subterm by an opaque constant (same subterm -> same constant).
     Returns (abstract term, list of side facts such as len >= 0)."""
-    facts = []
     key = t.get_id()
+    hit = _top_memo.get(key)
+    if hit is not None:
+        return hit[0], list(hit[1])
+    t0 = t
+    facts = []
     if key in _simp_memo:
         t = _simp_memo[key][0]
     else:
         ts = z3.simplify(t)      # canonical argument order for commutative operators (a == b vs b == a)
         _simp_memo[key] = (ts, t)
         t = ts
+    _abs_local.clear()
     r = _abs(t, facts)
+    _abs_local.clear()
+    _top_memo[key] = (r, tuple(facts), t0)     # keeps t0 alive: ids stay unique
     return r, facts
+
+
+_top_memo: dict = {}
+
+
+_abs_local = {}   # per-call memo: terms are DAGs (nested ites share subterms), a tree walk is exponential
 
 
 def _opaque(t, facts):
@@ -398,6 +455,16 @@ def _opaque(t, facts):
 
 
 def _abs(t, facts):
+    key = t.get_id()
+    hit = _abs_local.get(key)
+    if hit is not None:
+        return hit[0]
+    r = _abs_raw(t, facts)
+    _abs_local[key] = (r, t)
+    return r
+
+
+def _abs_raw(t, facts):
     if z3.is_quantifier(t) or not z3.is_app(t):
         return _opaque(t, facts)
     srt = t.sort().kind()
